@@ -150,3 +150,24 @@ Proof.
 Qed.
 
 End W.
+
+(* ---- asynchronous interrupt (Model/SignalCase.v): what the verdict 0 means -------------------------------------- *)
+From FJ Require Import Model.RunCase Model.SignalCase.
+
+Lemma check_signal_case_sound c :
+  check_signal_case c = 0 ->
+  exists s, run c.(c_ww) c.(c_segs) (N.to_nat c.(e_ops)) (init (mem_of_list c.(c_words)) (bytes_bits c.(c_input))) = (OutOfFuel, s)
+            /\ s.(ops) = c.(e_ops) /\ out_is c s.(outp) = true /\ mem_is c s.(m) = true
+            /\ (last_is c s.(hist) = true \/ last_is c (s.(ip) :: s.(hist)) = true).
+Proof.
+  unfold check_signal_case, sig_state. intros H.
+  destruct (run _ _ _ _) as [cs s] eqn:E.
+  destruct cs; try discriminate.
+  exists s. split; [reflexivity|].
+  destruct ((ops s =? e_ops c) && out_is c (outp s) && mem_is c (m s) &&
+            (last_is c (hist s) || last_is c (ip s :: hist s))) eqn:B.
+  - apply andb_true_iff in B. destruct B as [B Bl]. apply andb_true_iff in B. destruct B as [B Bm].
+    apply andb_true_iff in B. destruct B as [Bo Bout]. apply N.eqb_eq in Bo.
+    apply orb_true_iff in Bl. repeat split; assumption.
+  - revert H. cbv zeta. match goal with |- (if ?b then _ else _) = _ -> _ => destruct b end; discriminate.
+Qed.
